@@ -5,24 +5,17 @@ From Proofs Require Import TxnBase Hub.
 Import ListNotations.
 Open Scope Z_scope.
 
-Lemma final_phase_clean g t body r :
-  fault_strikes g t body = false ->
-  final_phase (ts_poison (thread g t)) r (body_touched (g_committed g) [] [] body) (length body) = PDone r (Some finished).
-Proof. unfold fault_strikes, final_phase. intros H. destruct r; [rewrite H|]; reflexivity. Qed.
-
 Lemma all_or_nothing_proof :
   forall (g : gst) (t : nat) (body : list bstep) (n : nat) (is_thr : bool),
     (t < length (g_threads g))%nat -> ts_phase (thread g t) = PIdle body -> caller_bound g t n is_thr -> g_lock g = None ->
-    fault_strikes g t body = false ->
     let g' := run_sched g (repeat t (length body + 2)) in
     (exists v, ts_phase (thread g' t) = PDone (Return v) (Some finished) /\ body_result (g_committed g) body = Return v /\
                g_committed g' = body_table (g_committed g) body) \/
     (exists e k, ts_phase (thread g' t) = PDone (Raised e k) (Some finished) /\ body_result (g_committed g) body = Raised e k /\
                  g_committed g' = g_committed g).
 Proof.
-  intros g t body n is_thr Ht Hph Hb Hl Hf g'.
+  intros g t body n is_thr Ht Hph Hb Hl g'.
   destruct (alone g t body n is_thr Ht Hph Hb Hl) as (A & B & _ & _). fold g' in A, B.
-  rewrite (final_phase_clean g t body _ Hf) in A.
   destruct (body_result (g_committed g) body) as [v|e k] eqn:E.
   - left. exists v. auto.
   - right. exists e, k. auto.
@@ -31,13 +24,9 @@ Qed.
 Lemma same_exception_proof :
   forall (g : gst) (t : nat) (body : list bstep) (n : nat) (is_thr : bool),
     (t < length (g_threads g))%nat -> ts_phase (thread g t) = PIdle body -> caller_bound g t n is_thr -> g_lock g = None ->
-    fault_strikes g t body = false ->
     let g' := run_sched g (repeat t (length body + 2)) in
     ts_phase (thread g' t) = PDone (body_result (g_committed g) body) (Some finished).
-Proof.
-  intros g t body n is_thr Ht Hph Hb Hl Hf g'. destruct (alone g t body n is_thr Ht Hph Hb Hl) as (A & _).
-  fold g' in A. rewrite (final_phase_clean g t body _ Hf) in A. exact A.
-Qed.
+Proof. intros g t body n is_thr Ht Hph Hb Hl g'. apply (alone g t body n is_thr Ht Hph Hb Hl). Qed.
 
 Lemma hub_restored_proof :
   forall (g : gst) (t : nat) (body : list bstep) (n : nat) (is_thr : bool),
@@ -49,27 +38,11 @@ Proof. intros g t body n is_thr Ht Hph Hb Hl g'. apply (alone g t body n is_thr 
 Lemma released_proof :
   forall (g : gst) (t : nat) (body : list bstep) (n : nat) (is_thr : bool),
     (t < length (g_threads g))%nat -> ts_phase (thread g t) = PIdle body -> caller_bound g t n is_thr -> g_lock g = None ->
-    fault_strikes g t body = false ->
     let g' := run_sched g (repeat t (length body + 2)) in
     exists r, ts_phase (thread g' t) = PDone r (Some {| x_obsolete := true; x_released := true |}) /\ g_lock g' = None.
 Proof.
-  intros g t body n is_thr Ht Hph Hb Hl Hf g'. destruct (alone g t body n is_thr Ht Hph Hb Hl) as (A & _ & _ & D).
-  fold g' in A. rewrite (final_phase_clean g t body _ Hf) in A. eexists. split; [exact A|exact D].
-Qed.
-
-(* the corner the code leaves open: commit(close=True) raising *)
-Lemma commit_failure_proof :
-  forall (g : gst) (t : nat) (body : list bstep) (n : nat) (is_thr : bool) (v : list Z),
-    (t < length (g_threads g))%nat -> ts_phase (thread g t) = PIdle body -> caller_bound g t n is_thr -> g_lock g = None ->
-    fault_strikes g t body = true -> body_result (g_committed g) body = Return v ->
-    let g' := run_sched g (repeat t (length body + 2)) in
-    ts_phase (thread g' t) = PDone (Raised XCommit (length body)) (Some {| x_obsolete := false; x_released := false |}) /\
-    g_committed g' = body_table (g_committed g) body /\
-    (forall t', resolve g' t' = resolve g t') /\ g_lock g' = None.
-Proof.
-  intros g t body n is_thr v Ht Hph Hb Hl Hf Hr g'. destruct (alone g t body n is_thr Ht Hph Hb Hl) as (A & B & C & D).
-  fold g' in A, B, C, D. rewrite Hr in A, B. unfold final_phase in A. unfold fault_strikes in Hf. rewrite Hf in A.
-  repeat split; auto.
+  intros g t body n is_thr Ht Hph Hb Hl g'. destruct (alone g t body n is_thr Ht Hph Hb Hl) as (A & _ & _ & D).
+  eexists. split; [exact A|exact D].
 Qed.
 
 (* ------------------------------------------------------------------ several threads *)
@@ -82,21 +55,18 @@ Lemma threads_step_proof :
   forall (g0 : gst) (sched : list nat) (t : nat),
     let g := run_sched g0 sched in
     g_committed (tick g t) = g_committed g \/
-    exists old is_thr v cached touched k created,
-      ts_phase (thread g t) = PRun old is_thr (Some v) cached touched [] k created /\
+    exists old is_thr v cached k created,
+      ts_phase (thread g t) = PRun old is_thr (Some v) cached [] k created /\
       g_committed (tick g t) = v /\
-      ((t < length (g_threads g0))%nat -> ts_poison (thread g0 t) = None ->
-       ts_phase (thread (tick g t) t) = PDone (Return created) (Some finished)).
+      ((t < length (g_threads g0))%nat -> ts_phase (thread (tick g t) t) = PDone (Return created) (Some finished)).
 Proof.
-  intros g0 sched t g. destruct (tick_committed g t) as [H|(old & i & v & c & tc & k & cr & A & B & C)]; [left; exact H|].
-  right. exists old, i, v, c, tc, k, cr. split; [exact A|]. split; [exact B|]. intros Ht Hp.
-  rewrite C by (unfold g; rewrite length_run_sched; exact Ht).
-  unfold poisoned. unfold g. rewrite poison_run, Hp. reflexivity.
+  intros g0 sched t g. destruct (tick_committed g t) as [H|(old & i & v & c & k & cr & A & B & C)]; [left; exact H|].
+  right. exists old, i, v, c, k, cr. split; [exact A|]. split; [exact B|]. intros Ht. apply C. unfold g. rewrite length_run_sched. exact Ht.
 Qed.
 
 Lemma threads_raise_proof :
   forall (g0 : gst) (p : list nat) (t : nat) (q : list nat) (e : hexc) (k : nat) (x : option txinfo),
-    (t < length (g_threads g0))%nat -> e <> XCommit ->
+    (t < length (g_threads g0))%nat ->
     ts_phase (thread (run_sched g0 (p ++ t :: q)) t) = PDone (Raised e k) x ->
     g_committed (run_sched g0 (p ++ [t])) = g_committed (run_sched g0 p).
 Proof. intros. eapply raised_never_committed; eauto. Qed.
@@ -113,7 +83,7 @@ Lemma threads_hub_proof :
     start_threads g0 = true -> valid_sched g0 sched -> (t < length (g_threads g0))%nat ->
     let g := run_sched g0 sched in
     match ts_phase (thread g t) with
-    | PRun _ _ _ _ _ _ _ _ => resolve g t = Some (CTx t)
+    | PRun _ _ _ _ _ _ _ => resolve g t = Some (CTx t)
     | _ => resolve g t = resolve g0 t
     end.
 Proof. intros g0 sched t H Hs Ht g. apply resolve_thread_level; auto. apply reach_inv; auto. Qed.
@@ -121,13 +91,11 @@ Proof. intros g0 sched t H Hs Ht g. apply resolve_thread_level; auto. apply reac
 Lemma threads_released_proof :
   forall (g0 : gst) (sched : list nat) (t : nat) (r : result) (x : option txinfo),
     start_threads g0 = true -> valid_sched g0 sched -> (t < length (g_threads g0))%nat ->
-    ts_poison (thread g0 t) = None ->
     ts_phase (thread (run_sched g0 sched) t) = PDone r x ->
     x = Some {| x_obsolete := true; x_released := true |}.
 Proof.
-  intros g0 sched t r x H Hs Ht Hp Hph. destruct (reach_inv g0 sched H Hs) as (_ & _ & IT & _).
-  destruct (IT t Ht) as [_ It]. unfold inv_thread in It. rewrite Hph in It. destruct It as [_ [E|(_ & E & _)]]; [exact E|].
-  rewrite poison_run in E. congruence.
+  intros g0 sched t r x H Hs Ht Hph. destruct (reach_inv g0 sched H Hs) as (_ & _ & IT & _).
+  destruct (IT t Ht) as [_ It]. unfold inv_thread in It. rewrite Hph in It. apply It.
 Qed.
 
 Lemma threads_frame_proof :
